@@ -250,7 +250,9 @@ Definition template (o : op) : tmpl op :=
   | ArpPrintTable => simple [TAcq LArp MW; TRd FArpHuntList; TRel LArp]
   (* spoof.go:78 spoofLoop, one iteration: membership under arpMutex, `closed` read with no lock,
      exit when not hunted or closed; the select wakes on closeChan or the ticker *)
-  | ArpSpoofLoop => simple [TAcq LArp MW; TRd FArpHuntList; TRd FArpClosed; TRel LArp; TExitIfFlag FArpClosed; TAgain]
+  | ArpSpoofLoop =>
+      simple [TAcq LArp MW; TRd FArpHuntList; TRd FArpClosed; TRel LArp; TExitIfFlag FArpClosed;
+              TRecv CArpClose; TAgain]   (* select { case <-h.closeChan: case <-ticker: } with no lock held *)
   (* arp.go:63 Close *)
   | ArpClose => simple [TAcq LArp MW; TRd FArpClosed; TOnce FArpClosed; TWr FArpClosed; TCloseCh CArpClose; TRel LArp]
 
@@ -278,7 +280,7 @@ Definition template (o : op) : tmpl op :=
      router list under the lock, then select on h.closeChan read with NO lock *)
   | I6SpoofLoop =>
       simple [TAcq LIcmp6 MW; TRd FI6CloseChan; TRd FI6HuntList; TRd FI6Closed; TRd FI6Router; TRd FI6Routers; TRel LIcmp6;
-              TExitIfFlag FI6Closed; TAgain]
+              TExitIfFlag FI6Closed; TRecv CI6Close; TAgain]   (* select { case <-wake: case <-time.After: } *)
   (* icmp6.go:67 Close: closes whatever channel h.closeChan currently holds *)
   | I6Close =>
       simple [TAcq LIcmp6 MW; TRd FI6Closed; TOnce FI6Closed; TWr FI6Closed; TRd FI6CloseChan; TCloseCh CI6Close; TRel LIcmp6]
